@@ -35,7 +35,9 @@ CHECKS = {
         "level_text": "Generated histories crossing the engine's compaction thresholds are compacted through every entry point (inline on write/close, load self-heal, "
                       "ForceCompaction, v2.Compactor methods, CompactFromIndex, the CLI's compactSwamp) with generated leftover temp files; live state and swamp name "
                       "must be identical before and after, later writes must reload. Every prefix of the compaction's own file-operation log, torn "
-                      "temp writes and 'rename persisted before the temp file's unsynced data' are materialised and must reload to exactly the pre-compaction state.",
+                      "temp writes and 'rename persisted before the temp file's unsynced data' are materialised and must reload to exactly the pre-compaction state. "
+                      "A fault facet re-runs the entry point with injected I/O faults (1-3 drawn, one-shot or persistent; always: the last write, the last fsync, and the rename failing once "
+                      "and failing persistently so that a retry fails too): afterwards the swamp must hold exactly the pre-compaction state and accept writes.",
         "level_note": "Prefix persistence model plus the rename-before-fsync hazard; no directory-entry loss. A second unit drives the CompactSwamp RPC and ordinary API traffic "
                       "through the in-process gateway (no crash facet there). Trusts the vfs shim op log and the harness state model.",
         "assumptions": ["compaction is the identity on (live key -> value, swamp name)", "prefix persistence + rename-before-fsync hazard"],
@@ -43,12 +45,13 @@ CHECKS = {
     "C25": {
         "pkg": "storage", "run": "^TestC25", "level": "fault_enumeration", "overlay": "vfs", "tags": ["verifvfs"],
         "shards": {"quick": 4, "thorough": 16},
-        "technique": "rapid-generated write histories with injected file-operation faults (error / short write; single and double; exhaustive single faults per history in thorough) against an acknowledged-value oracle",
+        "technique": "rapid-generated write histories with injected file-operation faults (error / short write; single, double and persistent; aimed at the inline compaction window; exhaustive single faults per history in thorough) against an acknowledged-value oracle",
         "level_text": "The storage engine's real file operations are intercepted (AST-instrumented os calls); fault plans drawn from a fault-free dry run make the n-th "
                       "operation fail or a write store only a prefix. After the history and a reload every key must hold its acknowledged value, or for unacknowledged "
-                      "writes the previous acknowledged value or an attempted one; later writes must again be stored and reload. Thorough tier enumerates every single "
-                      "fault at every faultable operation for a third of the histories.",
-        "level_note": "Faults are one-shot (the fault clears). chronicler.Write reports failures only through the log, so writes handed over between a fault and the "
+                      "writes the previous acknowledged value or an attempted one; later writes must again be stored and reload, and a server-constructed file must still carry its swamp name. "
+                      "A quarter of the histories are long enough (>= 100 entries, mostly dead) to make the chronicler compact INLINE in the middle of the session; every faultable operation from the writer's "
+                      "close before the compaction to the re-created writer after the rename gets a fault of its own. Thorough tier enumerates every single fault at every faultable operation for a third of the histories.",
+        "level_note": "Faults are one-shot or persistent for the next 1-3 operations of the same kind (the only way into retry paths), then the fault clears. chronicler.Write reports failures only through the log, so writes handed over between a fault and the "
                       "next successful Sync/Close are treated as unacknowledged. Trusts the vfs shim and the harness acknowledgement model.",
         "assumptions": ["a Sync/Close that returns nil acknowledges every entry handed over before it, unless a fault fired in between"],
     },
@@ -343,7 +346,8 @@ CHECKS = {
         "pkg": "codec", "run": "^TestC24", "level": "exploration",
         "shards": {"quick": 4, "thorough": 16}, "timeout": {"quick": 900, "thorough": 3600},
         "technique": "rapid property-based testing + native go fuzzing of the compressor: round-trip and corruption oracle under a hang watchdog",
-        "level_text": "Payloads from 0 to 1 MiB x 4 algorithms: Decompress(Compress(x)) == x with inputs unmodified; each of 1-3 damage steps (truncate, bit flips, window overwrite, "
+        "level_text": "Payloads from 0 to 1 MiB x 4 algorithms (plus a large facet: 2^k + d bytes up to 128 MiB + 1, round trip only): Decompress(Compress(x)) == x with inputs unmodified, and a compressed form "
+                      "handed out earlier stays byte-identical while the compressor is used again from the same instance, another instance and other goroutines; each of 1-3 damage steps (truncate, bit flips, window overwrite, "
                       "appended garbage, region swap) must give an error or exactly x, never empty or different data with a nil error; a separate facet bounds allocation for small "
                       "damaged inputs; thorough adds a native fuzz campaign.",
         "level_note": "With checksums detection of corruption is probabilistic by design (~2^-32). Snappy block format has no integrity check and LZ4 frame truncation at field boundaries "
